@@ -31,7 +31,7 @@ TIERS = {
     "thorough": {"budget_s": 600, "chunk": 400, "selftest": 512, "minimise_s": 90},
 }
 PROBES = ["set_with_fault", "dict_key_fault", "required_field_excluded", "typed_addition_fault", "varargs_fault",
-          "rule_leaf_fault", "length_bound_after_exclusion", "mode_required_field"]
+          "rule_leaf_fault", "length_bound_after_exclusion", "mode_required_field", "dependency_missing_for_kept_field", "excluded_field_with_dependency"]
 POL = ["throw", "exclude", "preserve"]
 FAIL = object()
 
@@ -81,6 +81,14 @@ def generate(rng, tier):
                 f["defer"] = True      # Field(defer_default=True): the default is not part of the parsed result
             fields.append(f)
             inp[f["name"]] = tdsl.gen_value(rng, t, pool, positions, (f["name"],))
+        if rng.random() < 0.3:
+            # a plain int field (never offending) that some other fields depend on
+            plan["dep_target"] = True
+            if rng.random() < 0.6:
+                inp["d0"] = rng.choice([1, "2"])
+            for f in fields:
+                if not f["required"] and rng.random() < 0.6:
+                    f["deps"] = True
         plan["fields"] = fields
         plan["addition"] = rng.choice([None, None, "leaf", True])
         if plan["addition"] is not None:
@@ -150,10 +158,15 @@ def build(plan, strict=False):
                     kw["default_factory"] = (lambda: faults.Leaf(9999))
             if f.get("defer"):
                 kw["defer_default"] = True
+            if f.get("deps"):
+                kw["dependencies"] = ["d0"]
             if f["on_error"] and not strict:
                 kw["on_error"] = f["on_error"]
             if kw:
                 ns[f["name"]] = Field(**kw)
+        if plan.get("dep_target"):
+            ns["__annotations__"]["d0"] = int
+            ns["d0"] = Field(required=False)
         add = plan.get("addition")
         okw = {}
         if plan.get("mode"):
@@ -266,9 +279,13 @@ def ref_plan(plan, value, pol, stats):
             r = ref(f["type"], value[name], pol)
             if r is not FAIL and r is not None and f.get("max_len") and len(r) > f["max_len"]:
                 r = FAIL
+            excluded = False
             if r is FAIL:
                 p = f["on_error"] or pol["invalid_values"]
                 if p == "exclude":
+                    excluded = True
+                    if f.get("deps"):
+                        stats["probe:excluded_field_with_dependency"] += 1
                     if f["required"] is True or (f["required"] == "mode" and plan.get("mode") == "a"):
                         stats["probe:required_field_excluded"] += 1
                         return FAIL
@@ -280,6 +297,12 @@ def ref_plan(plan, value, pol, stats):
                 else:
                     return FAIL
             out[name] = r
+            if f.get("deps") and "d0" not in value and not excluded:
+                # the field is kept (converted or preserved) and what it depends on is not given
+                stats["probe:dependency_missing_for_kept_field"] += 1
+                return FAIL
+        if "d0" in value:
+            out["d0"] = int(value["d0"])
         add = plan.get("addition")
         for key, v in value.items():
             if key.startswith("x"):
@@ -421,9 +444,9 @@ def execute(plan):
     try:
         got0 = _observe(parse(_value_of(plan)), plan)
     except Exception as e:  # noqa
-        if exp0 is not FAIL or not isinstance(e, ParseError):
-            raise kernel.HarnessError(f"C11 control run rejected a fault-free input: {type(e).__name__}: {e} plan={kernel.jdump(plan)}")
-        got0 = FAIL     # over a declared length bound even without faults: rejected, as the reference says
+        if not isinstance(e, ParseError):
+            raise kernel.HarnessError(f"C11 control run raised {type(e).__name__}: {e} plan={kernel.jdump(plan)}")
+        got0 = FAIL     # e.g. over a declared length bound even without faults: rejected, as the reference says (checked below)
     if (exp0 is FAIL) != (got0 is FAIL) or (exp0 is not FAIL and _canon(got0) != _canon(exp0)):
         # even without a single offending element the policies changed the result: "every non-offending element is
         # converted exactly as under the default 'throw' policy" fails outright
